@@ -1,6 +1,10 @@
 package main
 
 import (
+	"crypto/sha1"
+	"os"
+	"sort"
+	"sync"
 	"bufio"
 	"fmt"
 	"io"
@@ -9,19 +13,38 @@ import (
 	"time"
 )
 
-// Solver keeps one z3 process alive and answers self-contained queries.
-type Solver struct {
+var slowDir = os.Getenv("SYMGO_SLOWDIR")
+var slowN int
+
+// Solver keeps solver processes alive and answers self-contained queries.
+// Pure bit-vector/boolean queries go to an incremental process (push/pop: no
+// start-up or reset cost); queries with integer arithmetic go to a process that is
+// reset per query (z3's incremental core is much slower on non-linear integers).
+type proc struct {
 	cmd     *exec.Cmd
 	in      io.WriteCloser
 	out     *bufio.Reader
+	started bool
+	pending bool
+}
+
+type Solver struct {
+	argv    []string
+	inc     *proc
+	one     *proc
 	Queries int
 	Time    time.Duration
 	pre     string
+	tt        *TermTable
+	last      string
+	CacheHits int
 }
+
+var queryCache sync.Map
 
 func (s *Solver) takeTime() time.Duration { t := s.Time; s.Time = 0; return t }
 
-func NewSolver(argv []string) *Solver {
+func startProc(argv []string) *proc {
 	cmd := exec.Command(argv[0], argv[1:]...)
 	in, _ := cmd.StdinPipe()
 	outp, _ := cmd.StdoutPipe()
@@ -29,32 +52,89 @@ func NewSolver(argv []string) *Solver {
 	if err := cmd.Start(); err != nil {
 		panic(err)
 	}
-	s := &Solver{cmd: cmd, in: in, out: bufio.NewReader(outp)}
+	return &proc{cmd: cmd, in: in, out: bufio.NewReader(outp)}
+}
+
+func NewSolver(argv []string) *Solver {
+	s := &Solver{argv: argv}
 	if argv[0] == "cvc5" {
 		s.pre = "(set-logic ALL)\n"
 	}
 	return s
 }
 
-func (s *Solver) Close() { s.in.Close(); s.cmd.Wait() }
+func (s *Solver) Close() {
+	for _, p := range []*proc{s.inc, s.one} {
+		if p != nil {
+			p.in.Close()
+			p.cmd.Wait()
+		}
+	}
+}
 
 // Check asks whether the conjunction of the roots is satisfiable.
 // want lists variables to evaluate in the model when sat.
 func (s *Solver) Check(roots []*Term, want []*Term) (string, map[string]string) {
+	var key [20]byte
+	if len(want) == 0 && s.tt != nil {
+		hs := make([]string, len(roots))
+		for i, r := range roots {
+			h := s.tt.Hash(r)
+			hs[i] = string(h[:])
+		}
+		sort.Strings(hs)
+		key = sha1.Sum([]byte(strings.Join(hs, "")))
+		if v, ok := queryCache.Load(key); ok {
+			s.CacheHits++
+			return v.(string), nil
+		}
+		defer func() {
+			if s.last == "sat" || s.last == "unsat" {
+				queryCache.Store(key, s.last)
+			}
+		}()
+	}
+	s.last = ""
 	t0 := time.Now()
 	defer func() { s.Time += time.Since(t0); s.Queries++ }()
 	all := append(append([]*Term{}, roots...), want...)
-	script, names := Script(all)
+	script, names, hasInt := Script(all)
 	var sb strings.Builder
-	sb.WriteString("(reset)\n(set-option :produce-models true)\n")
-	sb.WriteString(s.pre)
+	var p *proc
+	if hasInt || s.argv[0] == "cvc5" {
+		if s.one == nil {
+			s.one = startProc(s.argv)
+		}
+		p = s.one
+		sb.WriteString("(reset)\n(set-option :produce-models true)\n")
+		sb.WriteString(s.pre)
+	} else {
+		if s.inc == nil {
+			s.inc = startProc(s.argv)
+		}
+		p = s.inc
+		if !p.started {
+			sb.WriteString("(set-option :produce-models true)\n")
+			p.started = true
+		}
+		if p.pending {
+			sb.WriteString("(pop 1)\n")
+		}
+		sb.WriteString("(push 1)\n")
+		p.pending = true
+	}
 	sb.WriteString(script)
 	for i := range roots {
 		fmt.Fprintf(&sb, "(assert %s)\n", names[i])
 	}
 	sb.WriteString("(check-sat)\n(echo \"<<done>>\")\n")
-	io.WriteString(s.in, sb.String())
-	res := s.readUntilDone()
+	tq := time.Now()
+	io.WriteString(p.in, sb.String())
+	res := p.readUntilDone()
+	if d := time.Since(tq); slowDir != "" && d > 300*time.Millisecond {
+		slowN++
+		os.WriteFile(fmt.Sprintf("%s/q%d_%dms.smt2", slowDir, slowN, d.Milliseconds()), []byte(sb.String()), 0o644)
+	}
 	verdict := "unknown"
 	for _, l := range res {
 		if strings.Contains(l, "(error") {
@@ -64,6 +144,7 @@ func (s *Solver) Check(roots []*Term, want []*Term) (string, map[string]string) 
 			verdict = l
 		}
 	}
+	s.last = verdict
 	if verdict != "sat" || len(want) == 0 {
 		return verdict, nil
 	}
@@ -74,8 +155,8 @@ func (s *Solver) Check(roots []*Term, want []*Term) (string, map[string]string) 
 		q.WriteByte(' ')
 	}
 	q.WriteString("))\n(echo \"<<done>>\")\n")
-	io.WriteString(s.in, q.String())
-	lines := s.readUntilDone()
+	io.WriteString(p.in, q.String())
+	lines := p.readUntilDone()
 	model := map[string]string{}
 	joined := strings.Join(lines, " ")
 	// crude parse: ((name value) (name value) ...)
@@ -105,7 +186,7 @@ func (s *Solver) Check(roots []*Term, want []*Term) (string, map[string]string) 
 	return verdict, model
 }
 
-func (s *Solver) readUntilDone() []string {
+func (s *proc) readUntilDone() []string {
 	var lines []string
 	for {
 		l, err := s.out.ReadString('\n')
